@@ -4,6 +4,8 @@ exploring every outcome of a comparison/branch whose value is not fixed by the s
 replaying choice prefixes). Produces, per explored path, the return value, the symbolic heap of field stores and
 the log of observed calls. Leaves the fragment (loops over data, arithmetic) => Undecided (rule fails closed)."""
 
+import re
+
 ORD = {"Less": "L", "Equal": "E", "Greater": "G"}
 ORD_INT = {"L": -1, "E": 0, "G": 1}
 
@@ -74,6 +76,7 @@ class Interp:
         self.call_models = call_models or {}
         self.fresh = fresh
         self.enum_results = enum_results
+        self.start_block = 0
 
     # ---- driver: enumerate choice sequences -----------------------------------------------------
     def explore(self, max_paths=256):
@@ -138,6 +141,9 @@ class Interp:
             return ("bool", False)
         if c == "()":
             return ("unit",)
+        m = re.fullmatch(r"(-?\d+)_(?:[iu](?:8|16|32|64|128|size))", str(c))
+        if m:
+            return ("int", int(m.group(1)))
         return ("const", c)
 
     def _agg(self, rv, vals):
@@ -279,7 +285,7 @@ class Interp:
     # ---- execution ------------------------------------------------------------------------------
     def _exec(self, fn, env, heap, rel, depth):
         proms = self._proms(fn)
-        b = 0
+        b = self.start_block if depth == 0 else 0
         steps = 0
         bbs = fn["bbs"]
         while True:
@@ -389,10 +395,8 @@ class Interp:
         a, b = vals
         op = rv["op"]
         if a and b and a[0] == "int" and b[0] == "int":
-            if op == "Eq":
-                return ("bool", a[1] == b[1])
-            if op == "Ne":
-                return ("bool", a[1] != b[1])
+            if op in ("Eq", "Ne", "Lt", "Le", "Gt", "Ge"):
+                return ("bool", {"Eq": a[1] == b[1], "Ne": a[1] != b[1], "Lt": a[1] < b[1], "Le": a[1] <= b[1], "Gt": a[1] > b[1], "Ge": a[1] >= b[1]}[op])
         if a and b and a[0] == "bool" and b[0] == "bool":
             if op == "Eq":
                 return ("bool", a[1] == b[1])
